@@ -136,6 +136,37 @@ def run_casper(ctx, timeout=6000):
     return out
 
 
+# ledger family: (cfg, stride quick) per tier
+LEDGER_CFGS = {
+    "quick": [("cfg/LedgerGen.quick.cfg", 8), ("cfg/LedgerGen.pool.quick.cfg", 4), ("cfg/LedgerGen.vote.quick.cfg", 24)],
+    "thorough": [("cfg/LedgerGen.quick.cfg", 1), ("cfg/LedgerGen.pool.quick.cfg", 1), ("cfg/LedgerGen.vote.quick.cfg", 1),
+                 ("cfg/LedgerGen.thorough.cfg", 8)],
+}
+
+
+def run_ledger(ctx, timeout=6000):
+    b = ctx.build("ledger")
+    out = dict(tlc=[], cases=0, calls=0, distinct=0, samples=[], other=0, states=0, transitions=0, configs=[])
+    for cfg, stride in LEDGER_CFGS[ctx.tier]:
+        r = tlc_cached(ctx, "chain/LedgerGen", cfg, timeout=timeout, tag="ledger", workers=NCPU)
+        h = replay_cached(ctx, b, [str(stride)], r.path, timeout=timeout)
+        s = h["summary"]
+        want = (r.nexports + stride - 1) // stride
+        if abs(s.get("cases", 0) - want) > 1 and not h["violations"]:
+            raise Infra("ledger replay covered %s of %d exported paths (%s)" % (s.get("cases"), want, cfg))
+        out["tlc"].append(r)
+        out["states"] += r.distinct
+        out["transitions"] += r.generated
+        out["cases"] += s.get("cases", 0)
+        out["calls"] += s.get("calls", 0)
+        out["distinct"] += s.get("distinct", 0)
+        out["samples"] += h["samples"][:1]
+        out["other"] += len(h["other"])
+        out["configs"].append(dict(cfg=os.path.basename(cfg), exported_paths=r.nexports, replayed=s.get("cases", 0),
+                                   stride=stride, replay_cached=h["cached"]))
+    return out
+
+
 def finish_chain(ctx, parts, rule, assumptions):
     states = sum(p["states"] for p in parts)
     trans = sum(p["transitions"] for p in parts)
